@@ -402,6 +402,7 @@ func (g *Gen) strct(depth int) *Node {
 	n := &Node{Kind: KStruct}
 	nf := 1 + r.Intn(g.P.MaxFields)
 	used := map[string]bool{}
+	usedEmpty := false
 	// records meant to be handed over as Go struct values: every key an exported identifier
 	exported := g.forceExported || (depth <= 1 && r.P(g.P.PStructIn))
 	n.Exported = exported
@@ -426,6 +427,9 @@ func (g *Gen) strct(depth int) *Node {
 					f.Tags["zog"] = "Z_" + k
 				} else if r.P(12) {
 					f.Tags["zog"] = "z_" + k + Pick(r, []string{",x", ",omitempty", " y", "-", ";"}) // a tag is a key as it stands
+				} else if depth > 0 && !usedEmpty && r.Fork(0xe0e0).P(2) {
+					f.Tags["zog"] = "" // ... also the empty one (its path segment is empty)
+					usedEmpty = true
 				}
 			}
 			if r.P(40) {
